@@ -765,7 +765,13 @@ func dmSymbol(data []int, rect bool) (*gozxing.BitMatrix, error) {
 	if rect {
 		sh = dmenc.SymbolShapeHint_FORCE_RECTANGLE
 	}
-	si, err := dmenc.SymbolInfo_Lookup(len(data), sh, nil, nil, true)
+	if len(data) > 1558 { // capacity of the largest symbol
+		data = data[:1558]
+	}
+	si, err := dmenc.SymbolInfo_Lookup(len(data), sh, nil, nil, false)
+	if err != nil || si == nil { // more than the largest rectangular symbol holds: a square one
+		si, err = dmenc.SymbolInfo_Lookup(len(data), dmenc.SymbolShapeHint_FORCE_SQUARE, nil, nil, false)
+	}
 	if err != nil || si == nil {
 		return nil, fmt.Errorf("no symbol for %d codewords", len(data))
 	}
